@@ -404,7 +404,7 @@ def run_case(case, ctx, shared=None):
     else:
         _COUNTER[0] += 1
         # last path segments as they occur: plain, with ;parameters, with characters that urllib treats specially
-        leaf = ['file.bin', 'spikes;rev=2.bin', 'file.bin', 'data+set~1.bin', 'file.bin'][_COUNTER[0] % 5]
+        leaf = ['file.bin', 'spikes;rev=2.bin', 'file.bin', 'data+set~1.bin', 'file.bin', 'session-2020.01.01T12:30:00.dat'][_COUNTER[0] % 6]      # (a time stamp with colons)
         path = '/c%d_%d/%s' % (os.getpid(), _COUNTER[0], leaf)
         if shared is not None:
             shared['path'] = path
